@@ -6,4 +6,5 @@ import BertE.Props.C05
 import BertE.Props.C06
 import BertE.Props.C07
 import BertE.Props.C09
+import BertE.Props.C17
 import BertE.Props.C18
